@@ -1071,6 +1071,45 @@ theorem step_bOp_agree (desc : FieldDesc) {s : St α} (hs : StoreOKB V s) (op : 
         · cases ht; exact eValB_ok h hs _
         · cases ht
 
+
+omit h in
+/-- element-level, univariate (all but the raw decoders) and bivariate arithmetic operations -/
+def elemOrUOrBOp (op : Op) : Bool := elemOpAll op || uOpAll op || bOp op
+
+theorem step_elemOrUOrB_agree (desc : FieldDesc) {s : St α} (hs : StoreOKB V s) (op : Op)
+    (hop : elemOrUOrBOp op = true) :
+    step env' desc s op = step env desc s op ∧ StoreOKB V (step env desc s op).1 := by
+  unfold elemOrUOrBOp at hop
+  rw [Bool.or_eq_true, Bool.or_eq_true] at hop
+  rcases hop with (hop | hop) | hop
+  · obtain ⟨e, hv⟩ := step_elemAll_agree h.u desc hs.1 op hop
+    refine ⟨e, hv, fun k r hk => ?_⟩
+    have hw : op.writesB = [] := by
+      cases op <;> first | rfl | (simp only [elemOpAll, Bool.false_eq_true] at hop)
+    rw [(step_frame' env desc s op).bs k (by rw [hw]; exact List.not_mem_nil)] at hk
+    exact hs.2 k r hk
+  · obtain ⟨e, hv⟩ := step_uOpAll_agree h.u desc hs.1 op hop
+    refine ⟨e, hv, fun k r hk => ?_⟩
+    have hw : op.writesB = [] := by
+      cases op <;> first | rfl | (simp only [uOpAll, uOp, Bool.false_eq_true] at hop)
+    rw [(step_frame' env desc s op).bs k (by rw [hw]; exact List.not_mem_nil)] at hk
+    exact hs.2 k r hk
+  · exact step_bOp_agree h desc hs op hop
+
+theorem runOps_elemOrUOrB_agree (desc : FieldDesc) (ops : List Op)
+    (hops : ∀ op ∈ ops, elemOrUOrBOp op = true) :
+    ∀ {s : St α}, StoreOKB V s →
+      runOps env' desc s ops = runOps env desc s ops ∧ StoreOKB V (runOps env desc s ops).1 := by
+  induction ops with
+  | nil => intro s hs; exact ⟨rfl, hs⟩
+  | cons op t ih =>
+    intro s hs
+    obtain ⟨e, hs'⟩ := step_elemOrUOrB_agree h desc hs op (hops op List.mem_cons_self)
+    obtain ⟨e2, hs2⟩ := ih (fun o ho => hops o (List.mem_cons_of_mem _ ho)) hs'
+    simp only [runOps]
+    rw [e, e2]
+    exact ⟨rfl, hs2⟩
+
 end StepB
 end Tables
 end Algobra
